@@ -436,6 +436,42 @@ def check(ctx: Ctx):
         r06_8(ctx)
     if C.want(ctx, 'R06.11'):
         r06_11(ctx)
+    if C.want(ctx, 'R06.12'):
+        r06_12(ctx)
+
+
+def r06_12(ctx: Ctx):
+    """Accessor agreement of the stored record: what SetF stores is what GetF returns.  The whole record-keeping of
+    the search goes through these pairs (coordinate, value, index, neighbour links)."""
+    rid = 'R06.12'
+    ctx.rule(rid, 'accessor agreement: for every Set<F>/Get<F> pair of SearchDataItem the setter stores its argument in '
+                  'the attribute the getter returns')
+    item = ctx.ix.cls('SearchDataItem')
+    ex = ctx.explorer()
+    n = 0
+    for name, setter in sorted(item.methods.items()):
+        if not name.startswith('Set') or setter.kind != 'function' or len(setter.param_names) != 2:
+            continue
+        getter = item.methods.get('Get' + name[3:])
+        if getter is None or len(getter.param_names) != 1:
+            continue
+        gp = C.normal_paths(ex.explore(getter))
+        sp = C.normal_paths(ex.explore(setter))
+        if len(gp) != 1 or not isinstance(gp[0].value, RF):
+            continue
+        ga = gp[0].value.single_atom()
+        if not (isinstance(ga, tuple) and len(ga) == 4 and ga[0] == 'attr' and ga[1] == key_of(var(getter.param_names[0]))):
+            continue
+        fld = ga[2]
+        n += 1
+        ok = bool(sp)
+        for p in sp:
+            v = p.state.heap.get((key_of(var(setter.param_names[0])), fld))
+            ok = ok and v is not None and key_of(v) == key_of(var(setter.param_names[1]))
+        ctx.check(ok, rid, setter.short, setter.loc(), f'{name} stores its argument in {fld}, which Get{name[3:]} returns',
+                  f'{setter.short} does not store its argument in {fld}, the attribute Get{name[3:]} returns: what the '
+                  f'search records is not what it reads back', key=f'{rid}::{setter.short}::agrees-with-getter')
+    ctx.floor(rid, 'Set/Get pairs of the search record', n, 2)
 
 
 def r06_11(ctx: Ctx):
